@@ -3,7 +3,7 @@
    declared size in {none, correct}, flavour, and every tree satisfying the cache shape invariant.  [hash] is any
    function with digests of at least two bytes.  [wf_rec] = the codec handles the written record faithfully
    (C11). *)
-From CC Require Import Bytes Codec Utf8 Lines Json Sri Record Fs Prog Api BytesP CodecP FsP ProgP SriP RecordP IndexP ReadP WriteP CommitP JsonP RecCodecP MetaP.
+From CC Require Import Bytes Codec Utf8 Lines Json Sri Record Fs Prog Api BytesP CodecP FsP ProgP SriP RecordP IndexP ReadP WriteP CommitP JsonP RecCodecP MetaP Crash CrashP CrashIdxP KeepP HistP.
 
 Section C02.
 Variable hash : algo -> bytes -> bytes.
@@ -90,6 +90,33 @@ Proof.
   intros Hi Hok f'. destruct (write_roundtrip hash HL f fl a key data now Hi (opts_ok_wf_rec hash key _ now Hok)) as [H1 [H2 [H3 [H4 _]]]]. auto.
 Qed.
 
+(* over histories (HistP.v): after ANY sequence of keyed one-shot writes (any flavour, algorithm, data) and removals from
+   the empty cache, a read of any key returns exactly the data of the last write to that key, or "not found" if it was
+   never written or removed since.  [kv_ok]: the caller's arguments fit the record format (UTF-8 key, time < 2^128);
+   [NoColl]: no two different data of the history share a digest path. *)
+Theorem C02_reads_see_latest_write (h : list kvop) :
+  forallb (kv_ok hash) h = true -> NoColl hash (written h) ->
+  let f := fold_left (kv_run hash) h [] in
+  forall k, run (read hash k) f
+            = (match fold_left kv_step h (fun _ => None) k with Some (a, d) => Ok d | None => Err ENotFound end, f).
+Proof. exact (reads_see_latest_write hash HL h). Qed.
+
+(* ... from any cache that refines a map, and every value ever written stays readable by address *)
+Theorem C02_history_refines (h : list kvop) f0 m0 W0 :
+  HInv hash f0 m0 W0 -> forallb (kv_ok hash) h = true -> NoColl hash (W0 ++ written h) ->
+  let f := fold_left (kv_run hash) h f0 in
+  (forall k, run (read hash k) f = (match fold_left kv_step h m0 k with Some (a, d) => Ok d | None => Err ENotFound end, f)) /\
+  (forall a d, In (a, d) (W0 ++ written h) -> run (read_hash hash (sri_of hash a d)) f = (Ok d, f)).
+Proof. intros H0 Hok Hnc f. exact (hinv_reads hash HL _ _ _ (history_refines hash HL h f0 m0 W0 H0 Hok Hnc)). Qed.
+
+(* the map: last write wins, removal clears, other keys untouched *)
+Theorem C02_map_last_write h m fl a key d now k :
+  fold_left kv_step (h ++ [KWrite fl a key d now]) m k = if bytes_eqb k key then Some (a, d) else fold_left kv_step h m k.
+Proof. exact (kv_last_write h m fl a key d now k). Qed.
+Theorem C02_map_removed h m key now k :
+  fold_left kv_step (h ++ [KRemove key now]) m k = if bytes_eqb k key then None else fold_left kv_step h m k.
+Proof. exact (kv_removed h m key now k). Qed.
+
 End C02.
 
 (* non-vacuity: the empty tree satisfies the invariant; the model run shows the conclusion on a concrete case
@@ -111,3 +138,19 @@ Print Assumptions C02_write_closed.
 Print Assumptions C02_streamed_by_hash.
 Print Assumptions C02_write.
 Print Assumptions C02_write_hash.
+
+(* non-vacuity of the history theorem: a concrete history meets its premises *)
+Example C02_history_example :
+  let h := [KWrite Sync Sha256 (bs "k") (bs "one") 1%N; KWrite Async Sha1 (bs "j") (bs "two") 2%N;
+            KWrite Sync Sha256 (bs "k") (bs "three") 3%N; KRemove (bs "j") 4%N] in
+  forallb (kv_ok toy_hash) h = true /\ NoColl toy_hash (written h) /\
+  fold_left kv_step h (fun _ => None) (bs "k") = Some (Sha256, bs "three") /\ fold_left kv_step h (fun _ => None) (bs "j") = None.
+Proof.
+  split; [vm_compute; reflexivity|]. split; [|split; vm_compute; reflexivity].
+  intros a d a' d' H1 H2 Hc. cbn in H1, H2.
+  destruct H1 as [E|[E|[E|[]]]]; destruct H2 as [E'|[E'|[E'|[]]]]; inversion E; inversion E'; subst; try reflexivity; vm_compute in Hc; discriminate.
+Qed.
+Print Assumptions C02_reads_see_latest_write.
+Print Assumptions C02_history_refines.
+Print Assumptions C02_map_last_write.
+Print Assumptions C02_map_removed.
